@@ -7,7 +7,7 @@ from ..describe import describe
 from ..engines.schemas import resolve_iter, char_item
 from .. import lemmas
 from .common import configs_for, has_feature
-from .util import Rule, guarded, site_of_block, truth_row, row_models, universe
+from .util import Rule, guarded, site_of_block, truth_row, row_models, universe, check_visits_all
 from . import models
 
 TITLE = "display_width is the sum of character widths outside ANSI sequences"
@@ -103,6 +103,7 @@ def _r1(prog, rep):
             "the accumulator starts at %s" % D(entry_value(prog, body, lm, apk)))
     ch = lm.item
     cases = set()
+    check_visits_all(r, body, lm, "display_width's loop over text.chars()")
     for tr in loop_system(prog, body, lm, [apk], []):
         if tr.kind != "back":
             continue
@@ -222,8 +223,25 @@ def _skipper(prog, rep):
                      "the %s loop continues exactly otherwise" % loop_class[lm.header].upper(), "truth table %s" % sorted(got_back),
                      "the %s loop continues for the cases %s of the same conditions; expected the complement of: %s" % (
                          loop_class[lm.header].upper(), sorted(got_back), what), site=site_of_block(body, lm.header))
-    r3.check(seen == {"csi": 1, "osc": 1}, "two-loops", "one CSI and one OSC loop", str(seen),
-             "expected one stateless (CSI) and one char-tracking (OSC) loop, found %s" % seen, nontrivial=False)
+    # the CSI scan may also be written as `chars.find(|c| FINAL.contains(c))`: consume through the first final byte
+    FINAL = ("call", "RangeInclusive::new", (("char", 0x40), ("char", 0x7e)))
+    csi_finds = set()
+    for b, t, cal in body.calls():
+        if cal.tname == "Iterator::find" and b not in in_loop:
+            a = [prog.simp(x, body) for x in s.call_args(b)]
+            if len(a) == 2 and a[0][0] == "mutref" and a[0][1] == it:
+                from ..engines.schemas import closure_return_term
+                cb2, ret2 = closure_return_term(prog, a[1])
+                okf = cb2 is not None and ret2[0] == "call" and ret2[1] == "RangeInclusive::contains" and ret2[2][0] == FINAL \
+                    and ret2[2][1][0] == "param" and ret2[2][1][1] == 2
+                r3.check(okf, "csi-find", "the CSI scan is find(first char in U+0040..=U+007E)", "find(|c| FINAL.contains(c))",
+                         "the skipper searches the iterator with a predicate other than ('\\x40'..='\\x7e').contains(c)",
+                         site=site_of_block(body, b))
+                if okf:
+                    csi_finds.add(b)
+                    seen["csi"] += 1
+    r3.check(seen == {"csi": 1, "osc": 1}, "two-loops", "one CSI and one OSC scan", str(seen),
+             "expected one stateless (CSI) and one char-tracking (OSC) scan, found %s" % seen, nontrivial=False)
 
     # ---- the dispatch around the loops ------------------------------------------------
     kinds = {}
@@ -254,7 +272,9 @@ def _skipper(prog, rep):
         r3.check(ret == ("bool", True), "esc-true", "ch == ESC: return true", "true", "for ch == ESC the skipper returns %s" % D(ret))
         out_evs = [(b, n) for b, n in evs if b not in in_loop]
         nexts = [b for b, n in out_evs if n == "Iterator::next"]
-        odd = [n for b, n in out_evs if n not in ("Iterator::next", "IntoIterator::into_iter", "Iterator::by_ref")]
+        odd = [n for b, n in out_evs if n not in ("Iterator::next", "IntoIterator::into_iter", "Iterator::by_ref")
+               and b not in csi_finds]
+        finds = [b for b, n in out_evs if b in csi_finds]
         r3.check(not odd, "events", "outside the loops the iterator is only advanced by next()", "next only",
                  "the skipper also applies %s to the iterator" % odd)
         r3.check(len(nexts) == 1, "one-next", "exactly one char is consumed before dispatching", "one next()",
@@ -300,15 +320,16 @@ def _skipper(prog, rep):
         in_evs = [n for b, n in evs if b in in_loop]
         if csi is True and osc is False:
             kinds["csi"] = True
-            r3.check(hdrs == ["csi"], "csi-loop", "CSI: the rest is consumed by the final-byte loop", "one loop",
+            r3.check((hdrs == ["csi"] and not finds) or (not hdrs and len(finds) == 1), "csi-loop",
+                     "CSI: the rest is consumed by the final-byte scan", "one scan",
                      "after ESC '[' the skipper runs the loops %s; expected the final-byte scan" % hdrs)
         elif csi is False and osc is True:
             kinds["osc"] = True
-            r3.check(hdrs == ["osc"], "osc-loop", "OSC: the rest is consumed by the terminator loop", "one loop",
+            r3.check(hdrs == ["osc"] and not finds, "osc-loop", "OSC: the rest is consumed by the terminator loop", "one loop",
                      "after ESC ']' the skipper runs the loops %s; expected the BEL / ESC-backslash scan" % hdrs)
         elif csi is False and osc is False:
             kinds["other"] = True
-            r3.check(not hdrs and len(evs) == len(out_evs), "other", "neither '[' nor ']': nothing more is consumed", "no loop",
+            r3.check(not hdrs and not finds and len(evs) == len(out_evs), "other", "neither '[' nor ']': nothing more is consumed", "no loop",
                      "after ESC + other char (or end of input) the skipper consumes more input")
         else:
             r3.check(False, "dispatch", "", "", "the skipper's dispatch on the char after ESC is not decided by '[' and ']' "
